@@ -102,6 +102,7 @@ def rule_b(ctx: Context, R: Reporter):
             true_succ = [x for (x, lab) in cfg.succ[t.id] if lab and lab[0] == "cond" and lab[2] is True]
             ok = bool(site_nodes) and bool(true_succ)
             path = None
+            skip_guard = ""
             for ts in true_succ:
                 if ts in site_nodes:
                     continue
@@ -109,11 +110,16 @@ def rule_b(ctx: Context, R: Reporter):
                     ok = False
                     p = cfg.find_path(ts, cfg.exit.id, blocked=site_nodes) or [ts]
                     path = [repr(cfg.nodes[i]) for i in p][:10]
+                    # the condition under which the replacement is skipped (part of the finding's identity)
+                    for i, j in zip(p, p[1:]):
+                        for (tt, lab) in cfg.succ[i]:
+                            if tt == j and lab and lab[0] == "cond" and cfg.nodes[i].id != t.id and any(cfg.reaches(x, sn) or x == sn for sn in site_nodes for (x, l2) in cfg.succ[i] if l2 and l2[0] == "cond" and l2[2] != lab[2]):
+                                skip_guard = f"{norm_text(lab[1])} is {lab[2]}"
             R.check(
                 "C11.b", "every path with a non-empty -inf mask passes the joint replacement", ok, fi, t.ast,
                 msg=f"{fi.short}: after `{unparse(t.ast)}` is true there is a path to the end of the function that never replaces the -inf rows "
                     f"(e.g. when no finite draw exists): a batch with -inf log-likelihoods is stored",
-                witness={"path": path}, key="inf-mask-path-without-replacement",
+                witness={"path": path, "skipped_when": skip_guard}, key=f"inf-mask-path-without-replacement[{skip_guard}]",
             )
     R.floor("C11.b", "tests on the -inf mask", n, 1)
 
